@@ -88,6 +88,9 @@ def gen_op(rng, recipe, kind, allow=None, p_each=0.3):
         return {"op": "predict", "seed": rng.randrange(1 << 30), "t": t, "bundle": b, "lik": rng.random() < 0.25, "grad": rng.random() < 0.3}
     if kind in ("train", "eval", "kl", "objective"):
         return {"op": kind, "seed": rng.randrange(1 << 30)}
+    if kind == "sub_mode":
+        tg = ["likelihood", "covar_module", "mean_module"] + (["variational_strategy"] if var else [])
+        return {"op": kind, "target": rng.choice(tg), "train": rng.random() < 0.5}
     if kind == "prior_predict":
         return {"op": kind, "seed": rng.randrange(1 << 30), "t": rng.randint(1, 3)}
     if kind == "train_call":
@@ -173,9 +176,11 @@ def apply(live, op, out, role=""):
     status = "ok"
     # the library's own RNG use sits behind the simulator's seam: every op starts from its recorded seed
     torch.manual_seed(op.get("seed", 20261002))
+    if k == "sub_mode":
+        getattr(M, op["target"]).train(op["train"])
+        return "ok", {}
     if k == "predict":
-        if M.training:
-            set_mode(live, False)
+        set_mode(live, False)  # model.eval(); likelihood.eval() - re-synchronises submodules switched on their own
         r = predict(M, test_args(recipe, op), op, op.get("lik", False))
         if r[0] == "ok":
             obs = r[1]
@@ -351,6 +356,13 @@ def apply(live, op, out, role=""):
             donor.train()
             with torch.no_grad():
                 donor(live.x)
+        else:
+            donor.eval()
+            try:
+                with torch.no_grad():  # lazily created buffers (RFF weights, dynamic grids) exist after one call
+                    donor(*test_args(recipe, {"seed": op["seed"] + 1, "t": 2}))
+            except Exception:  # noqa
+                pass
         sd = dict(donor.state_dict())
         scope = op.get("scope", "all")
         if k == "load_state_dict" and scope != "all":
